@@ -163,27 +163,27 @@ static void run_zoo(Rng &r)
         std::multiset<std::string> e, g;
         auto leaf = [&](const std::string &pre, const Leaf &l, bool subtree_enabled) {
             if(!subtree_enabled) return;
-            bool self_on = c.enable_placement != 2 || l.on;
+            bool self_on = !c.by_self() || l.on;
             for(auto &n : c.leaf.order) {
                 if(!self_on && n != "on") continue;     // a disabled object still presents its enabling toggle
                 if(n == "arr" || n == "farr") for(int i = 0; i < 8; ++i) e.insert(pre + n + std::to_string(i));
                 else e.insert(pre + c.leaf.pname(n));
             }
-            if(c.enable_placement == 2 && self_on) e.insert(pre + "self");
+            if(c.by_self() && self_on) e.insert(pre + "self");
         };
         e.insert("/vol"); e.insert("/mid/" + c.en_name); e.insert("/mid/x");
-        leaf("/mid/leaf/", root.mid.leaf, c.enable_placement != 1 || root.mid.en);
+        leaf("/mid/leaf/", root.mid.leaf, !c.by_sibling() || root.mid.en);
         if(c.has_many) for(int i = 0; i < 3; ++i) leaf(fmt("/mid/many%d/", i), root.mid.many[i], true);
         if(c.has_top) leaf("/top/", root.top, true);
         if(c.has_ptr) leaf("/mid/ptr/", root.ptr_target, root.mid.ptr != nullptr && (!c.ptr_gated || root.mid.en));
         if(c.ptr_gated && !root.mid.ptr && root.mid.en) count("zoo.null_pointer_with_toggle_on");
         if(c.ptr_gated && root.mid.ptr && !root.mid.en) count("zoo.pruned_pointer_by_toggle");
-        if(c.en_name != "en" && c.enable_placement == 1) count("zoo.toggle_name_starts_with_subtree_name");
-        if(c.en_is_int && (c.enable_placement == 1 || c.ptr_gated) && root.mid.en && (root.mid.en & 0xff) == 0) count("zoo.enabled_by_integer_level_multiple_of_256");
+        if(c.en_name != "en" && c.by_sibling()) count("zoo.toggle_name_starts_with_subtree_name");
+        if(c.en_is_int && (c.by_sibling() || c.ptr_gated) && root.mid.en && (root.mid.en & 0xff) == 0) count("zoo.enabled_by_integer_level_multiple_of_256");
         for(auto &x : got) g.insert(x.addr);
         count("zoo.addresses_reported", got.size());
-        if(c.enable_placement == 1 && !root.mid.en) count("zoo.pruned_by_sibling_toggle");
-        if(c.enable_placement == 2 && !root.mid.leaf.on) count("zoo.pruned_by_own_toggle");
+        if(c.by_sibling() && !root.mid.en) count("zoo.pruned_by_sibling_toggle");
+        if(c.by_self() && !root.mid.leaf.on) count("zoo.pruned_by_own_toggle");
         if(c.has_ptr && !root.mid.ptr) count("zoo.pruned_null_pointer");
         if(g != e) {
             std::string miss, extra;
@@ -204,14 +204,14 @@ static void run_zoo(Rng &r)
                 rtosc::walk_ports(&Leaf::ports, b2, 1024, &got2, walker_cb, true, (void *)&lf);
                 count("zoo.walks_from_object_table");
                 std::multiset<std::string> e2, g2;
-                bool self_on = c.enable_placement != 2 || lf.on;
+                bool self_on = !c.by_self() || lf.on;
                 for(auto &n : c.leaf.order) {
                     if(!self_on && n != "on") continue;
                     if(n == "arr" || n == "farr") for(int i = 0; i < 8; ++i) e2.insert(pre + n + std::to_string(i));
                     else e2.insert(pre + c.leaf.pname(n));
                 }
-                if(c.enable_placement == 2 && self_on) e2.insert(pre + "self");
-                if(c.enable_placement == 2 && !self_on) count("zoo.object_table_walk_of_disabled_object");
+                if(c.by_self() && self_on) e2.insert(pre + "self");
+                if(c.by_self() && !self_on) count("zoo.object_table_walk_of_disabled_object");
                 for(auto &x : got2) g2.insert(x.addr);
                 if(strcmp(b2, pre.c_str())) fail("name_buffer_not_restored", {}, sdesc + " walk from the object's table below " + pre, vis(b2), pre);
                 if(g2 != e2) {
